@@ -193,13 +193,17 @@ static void runEnum(const Opt &o, Ev &ev) {
     ev.exhaustive["operation sequences per heap size 2..12 up to the lengths listed under bounds.c20-enum"] = true;
 }
 
+static bool g_holdOps = getenv("VF_C20_HOLD") != nullptr;    // exploration only
 static HCase decode(Src &s) {
     HCase c; c.cap = (int) s.range(1, 4); c.heap = s.prob(1, 3) ? s.range(2, 15) : s.range(16, 256);
     int n = (int) s.range(1, 1000);
     int kept = 0;
     for (int i = 0; i < n; i++) {
         HStep st; st.len = 0;
-        st.op = (int) s.weighted({8, 2, 4, 4, 1, 1, 2});
+        // pop-and-keep / release-kept are implemented (and replayable) but not generated: the statement quantifies over pops that
+        // release at once, and a correct alternative allocator may rely on first-in-first-out release (benign/C20-b1 does); asserting
+        // more raised a false alarm on it (DESIGN 11.6)
+        st.op = (int) s.weighted({8, 2, 4, 4, 1, g_holdOps ? 1u : 0u, g_holdOps ? 2u : 0u});
         // the ring heap hands out space in the order it gets it back: an application gives a popped text back before it (or
         // anyone) queues the next error with text - what it may do in between is pop, query and clear
         if (st.op == H_PUSHTEXT) while (kept > 0) { c.steps.push_back({H_RELEASE, 0}); kept--; }
